@@ -74,6 +74,7 @@ fn enumerate_prefixes_here(job: &Job, depth: usize) -> Vec<Vec<usize>> {
     let r = catch_unwind(AssertUnwindSafe(|| {
         runner.run(move || {
             run_body(&body, &x2);
+            TICK.fetch_add(1, std::sync::atomic::Ordering::Relaxed);
             // the main task is the last to finish its body; record the prefix of this execution
             let s = sh2.lock().unwrap();
             let p: Vec<usize> = s.levels.iter().take(depth).map(|l| l.idx).collect();
@@ -326,6 +327,14 @@ fn h2_box(prop: &str, thorough: bool) -> Vec<(Body, usize)> {
     // output slots BEYOND the current set exist; they must be left alone, not re-created (C16)
     let fa_shrink: (Fmt, &[u8], usize, usize) = (Fmt::Fasta, b">a\nA\n>b\nC\n>c\nG\n>d\nACGTACGTAC\n>e\nACGTACGTAC\n>f\nACGTACGTAC\n", 16, 4);
     let mut inputs = vec![fa2, fa3, fa3b, fq2, fq3, fa_grow, fq_grow, fa_updown, fa_shrink];
+    if prop == "C08" {
+        // inputs without any record (0 record sets through the real readers): empty, blank, a lone CR
+        inputs.push((Fmt::Fasta, b"", 12, 0));
+        inputs.push((Fmt::Fasta, b"\n\r", 12, 0));
+        inputs.push((Fmt::Fasta, b"\r", 12, 0));
+        inputs.push((Fmt::Fastq, b"", 22, 0));
+        inputs.push((Fmt::Fastq, b"\n\r\n", 22, 0));
+    }
     if prop == "C16" {
         // buffers beyond the default 64 KiB: a reader created with a larger capacity (two sets of
         // 66 000 bytes), and a default-sized reader that has to grow for one long record; the data
@@ -354,7 +363,7 @@ fn h2_box(prop: &str, thorough: bool) -> Vec<(Body, usize)> {
                     }
                     bound = if t == 1 { 1 } else { 0 };
                 }
-                let base = H2 { format, input: input.to_vec(), cap, threads: t, queue: q, stop_at: None, reader_init_fails: false, rec_init_fail_at: None, rset_init_fail_at: None, plain: false };
+                let base = H2 { format, input: input.to_vec(), cap, threads: t, queue: q, stop_at: None, reader_init_fails: false, rec_init_fail_at: None, rset_init_fail_at: None, plain: false, raw_fits: false };
                 let mut push = |c: H2, b: usize| v.push((Body::H2(c), b));
                 match prop {
                     "C07" => {
@@ -365,6 +374,11 @@ fn h2_box(prop: &str, thorough: bool) -> Vec<(Body, usize)> {
                     }
                     "C16" => {
                         push(base.clone(), bound);
+                        // the data sets themselves, through read_parallel: inputs whose records all fit
+                        // (everything but the configuration that has to grow)
+                        if cap < 60_000 || format == Fmt::Fasta {
+                            push(H2 { raw_fits: true, ..base.clone() }, bound.min(1));
+                        }
                     }
                     "C08" => {
                         for r in [0usize, 1, 2] {
@@ -553,7 +567,18 @@ fn main() {
     // Partition the big searches (2 workers with preemptions, or bound >= 3) by choice prefixes of
     // fixed depth so that they spread over all cores. The prefixes are enumerated by a pass of the
     // same scheduler that does not branch below the depth; every schedule extends exactly one prefix.
-    start_watchdog(900);
+    // An execution takes microseconds; one that never finishes (a thread of the subject spinning
+    // without reaching a scheduling point) stops the execution counter of its worker. When nothing
+    // has moved for 240 s the watchdog reports the jobs in flight as violations: "every call returns".
+    *sweep::PROPERTY.lock().unwrap() = prop.clone();
+    start_watchdog(240);
+    {
+        let js = jobs.clone();
+        set_describe(Some(std::sync::Arc::new(move |idx| {
+            let j = &js[idx as usize];
+            (format!("an execution of {:?} that never finished (a thread spins without reaching a scheduling point, or the call never returns)", j), json!({"kind": "schedule", "body": j.body, "schedule": [], "events": [], "preemption_bound": j.bound, "note": "hang: no schedule recorded"}))
+        })));
+    }
     let big = |j: &Job| -> bool {
         let t = match &j.body {
             Body::H1(c) => c.threads,
@@ -601,6 +626,13 @@ fn main() {
     let prop2 = prop.clone();
     let all_traces: Mutex<std::collections::BTreeMap<(String, String), Vec<Ev>>> = Mutex::new(Default::default());
     let all_classes: Mutex<std::collections::BTreeMap<String, BTreeSet<String>>> = Mutex::new(Default::default());
+    {
+        let js = jobs.clone();
+        set_describe(Some(std::sync::Arc::new(move |idx| {
+            let j = &js[idx as usize];
+            (format!("an execution of {:?} that never finished (a thread spins without reaching a scheduling point, or the call never returns)", j), json!({"kind": "schedule", "body": j.body, "schedule": [], "events": [], "preemption_bound": j.bound, "prefix": j.prefix, "note": "hang: no schedule recorded"}))
+        })));
+    }
     let tot = par_sweep(jobs.len() as u64, 2, |idx, l| {
         let job = &jobs[idx as usize];
         let t0 = std::time::Instant::now();
